@@ -211,3 +211,24 @@ func boundAlloc(outer, inner *ssa.Function, fv *ssa.FreeVar) *ssa.Alloc {
 	}
 	return out
 }
+
+// blockReaches reports whether control can flow from block a to block b along one or more edges.
+func blockReaches(a, b *ssa.BasicBlock) bool {
+	seen := map[*ssa.BasicBlock]bool{}
+	var walk func(x *ssa.BasicBlock) bool
+	walk = func(x *ssa.BasicBlock) bool {
+		for _, s := range x.Succs {
+			if s == b {
+				return true
+			}
+			if !seen[s] {
+				seen[s] = true
+				if walk(s) {
+					return true
+				}
+			}
+		}
+		return false
+	}
+	return walk(a)
+}
